@@ -121,14 +121,16 @@ def run(ctx):
     rw = pool.methods['restart_workers']
     ctx.used(rw)
     rc = [c for c in calls_in(rw.node) if last_attr(c) == 'restart']
-    ok = len(rc) == 1 and any(k.arg == 'results_pipe' and is_name(k.value, 'queue') for k in rc[0].keywords)
+    QV = next((st.targets[0].id for st in walk_local(rw.node) if isinstance(st, ast.Assign) and isinstance(st.targets[0], ast.Name) and isinstance(st.value, ast.Call) and last_attr(st.value) == 'Pipe'), None)
+    WV = receiver(rc[0]) if rc else None
+    ok = len(rc) == 1 and QV is not None and any(k.arg == 'results_pipe' and is_name(k.value, QV) for k in rc[0].keywords)
     ctx.check('R4', 'Pool.restart_workers supplies a fresh results pipe to restart()', ok, 'Pool.restart_workers', 'pool-restart-pipe', 'the Pool restarts a worker without a fresh results pipe', where=loc(rw, rw.node))
-    keys_new = [st for st in walk_local(rw.node) if isinstance(st, ast.Assign) and isinstance(st.targets[0], ast.Subscript) and norm(st.targets[0].slice) == 'w.id']
+    keys_new = [st for st in walk_local(rw.node) if isinstance(st, ast.Assign) and isinstance(st.targets[0], ast.Subscript) and norm(st.targets[0].slice) == f'{WV}.id']
     tabs = {st.targets[0].value.attr for st in keys_new if is_self_attr(st.targets[0].value)}
     ctx.check('R4', 'Pool.restart_workers registers the worker under its new id in both tables', tabs == {'_workers', '_queues'}, 'Pool.restart_workers', 'pool-restart-rekey:' + ','.join(sorted(tabs)),
               'after a restart the Pool does not know the worker under its new id', where=loc(rw, rw.node))
     q = [st for st in keys_new if is_self_attr(st.targets[0].value, '_queues')]
-    ok = bool(q) and norm(q[0].value) == 'queue.parent_end'
+    ok = bool(q) and norm(q[0].value) == f'{QV}.parent_end'
     ctx.check('R4', 'the Pool reads the parent end of the fresh pipe', ok, 'Pool.restart_workers', 'pool-restart-queue-end', 'the Pool polls the wrong end / the old pipe after a restart', where=loc(rw, rw.node))
 
 
